@@ -58,7 +58,7 @@ import (
 func init() {
 	core.Register(&core.Monitor{
 		ID:            "C31",
-		Rule:          "(L) all 15 non-empty subsets + the empty subset of {V1,V2,V3,V4} x PRNG cost models (quick 150, thorough 5000 draws per subset; lengths 0..300; entries small / negative / +-2^63 boundary) against an independent encoder; (R) era (Alonzo..Dijkstra) x language subset the era has (witness scripts; Babbage+ also supplied by reference input) x redeemer form (list / map where decodable) x datums 0..3 x encoding (canonical / PRNG non-canonical redeemer and datum bytes) x unused Plutus reference script (none / on a reference input / on a spent input) x declared hash (correct, absent, and every applicable wrong construction: bit flipped, V1 as definite list, V1 not double wrapped, V1 key single wrapped, entries in reverse order, re-encoded redeemers / datums, datums omitted, empty datum list included, extra language, missing language, other cost model, unused reference language included) with PRNG cost models (quick 4 draws, thorough 60); plus witness field 4 present but empty in 4 encodings with redeemers present (declared: correct, absent, empty-field bytes included, bit flipped, missing language, other cost model), field 5 present but empty in 4 encodings with datums / an empty datum field / no datum field, and no-redeemer-no-datum transactions with / without a declared hash; a case is non-trivial when the transaction decodes; distinct by (era, transaction id, cost-model digest)",
+		Rule:          "(L) all 15 non-empty subsets + the empty subset of {V1,V2,V3,V4} x PRNG cost models (quick 150, thorough 5000 draws per subset; lengths 0..300; entries small / negative / +-2^63 boundary) against an independent encoder; (R) era (Alonzo..Dijkstra) x language subset the era has (witness scripts; Babbage+ also supplied by reference input) x redeemer form (list / map where decodable) x datums 0..3 x encoding (canonical / PRNG non-canonical redeemer and datum bytes) x unused Plutus reference script (none / on a reference input / on a spent input) x declared hash (correct, absent, and every applicable wrong construction: bit flipped, V1 as definite list, V1 not double wrapped, V1 key single wrapped, entries in reverse order, re-encoded redeemers / datums, datums omitted, empty datum list included, extra language, missing language, other cost model, unused reference language included) with PRNG cost models (quick 4 draws, thorough 60); plus witness field 4 present but empty in 4 encodings with redeemers present (declared: correct, absent, empty-field bytes included, bit flipped, missing language, other cost model), field 5 present but empty in 4 encodings with datums / an empty datum field / no datum field, and no-redeemer-no-datum transactions with / without a declared hash; body / witness-set map key order cycling through ascending, witness descending, body descending, both shuffled (judged in both directions); a case is non-trivial when the transaction decodes; distinct by (era, transaction id, cost-model digest)",
 		MinNontrivial: 8000,
 		Assumptions: []string{
 			"the languages of a transaction are those of the Plutus scripts it executes (cardano-ledger ppViewHashesMatch: scriptsProvided restricted to scriptsNeeded); a Plutus reference script that merely sits on a reference input or on a spent UTxO is not used",
@@ -527,6 +527,16 @@ func build(t rcase, r *core.Rand) (*builtCase, error) {
 	w.Params.CostModels = cm
 	b := &builtCase{state: w.State, params: w.Params}
 	s := w.Spec.Clone()
+	// presentation: the hash covers the BYTES of fields 4 / 5, not their
+	// position; both directions are judged in every map key order
+	switch (t.draw + t.nDatums + len(t.langs)) % 4 {
+	case 1:
+		s.WitnessOrder = lg.Descending()
+	case 2:
+		s.BodyOrder = lg.Descending()
+	case 3:
+		s.BodyOrder, s.WitnessOrder = lg.Shuffled(uint64(t.draw)+3), lg.Shuffled(uint64(t.draw)+5)
+	}
 	// one Plutus-locked input per language
 	type sin struct {
 		in   lg.Input
